@@ -1113,3 +1113,30 @@ package sarama
 //@   returns ch
 //@   ensures ch != nil
 //@   modifies nothing
+
+// ---------------------------------------------------------------------------------------------
+// consumer.go (C03 exactly once / in order, C11 control and aborted records, C18 consumer interceptors)
+// A-input: offsets handled by the consumer are in [0, 2^62) (no int64 wrap-around).
+
+//@ ghost field ConsumerMessage.chained int
+
+//@ func (child *partitionConsumer) parseRecords(batch) props C03 C11
+//@   returns msgs, err
+//@   requires 0 <= child.offset && child.offset < 4611686018427387904
+//@   requires 0 <= batch.FirstOffset && batch.FirstOffset < 4611686018427387904
+//@   requires forall k :: 0 <= k && k < len(batch.Records) ==> batch.Records[k] != nil && 0 <= batch.Records[k].OffsetDelta && batch.Records[k].OffsetDelta < 4294967296
+//@   ensures[no_error] err == nil
+//@   ensures[from_start] forall k :: 0 <= k && k < len(msgs) ==> msgs[k].Offset >= old(child.offset)
+//@   ensures[strictly_increasing] forall a, b :: 0 <= a && a < b && b < len(msgs) ==> msgs[a].Offset < msgs[b].Offset
+//@   ensures[advance] child.offset > old(child.offset) && forall k :: 0 <= k && k < len(msgs) ==> msgs[k].Offset < child.offset
+//@   ensures[fresh_messages] forall k :: 0 <= k && k < len(msgs) ==> msgs[k].chained == 0 && msgs[k] != nil && fresh(msgs[k])
+//@   ensures[unaltered] forall k :: 0 <= k && k < len(msgs) ==> exists j :: 0 <= j && j < len(batch.Records) && msgs[k].Offset == batch.FirstOffset + batch.Records[j].OffsetDelta && msgs[k].Key == batch.Records[j].Key && msgs[k].Value == batch.Records[j].Value && msgs[k].Headers == batch.Records[j].Headers && msgs[k].Topic == child.topic && msgs[k].Partition == child.partition
+//@   loop 0: invariant child.offset >= old(child.offset) && child.offset < 4611686018427387904 + 4294967296 + 1
+//@   loop 0: invariant len(messages) > 0 ==> child.offset == messages[len(messages)-1].Offset + 1
+//@   loop 0: invariant len(messages) == 0 ==> child.offset == old(child.offset)
+//@   loop 0: invariant forall k :: 0 <= k && k < len(messages) ==> messages[k].Offset >= old(child.offset) && messages[k].Offset < child.offset
+//@   loop 0: invariant forall a, b :: 0 <= a && a < b && b < len(messages) ==> messages[a].Offset < messages[b].Offset
+//@   loop 0: invariant forall k :: 0 <= k && k < len(messages) ==> allocated(messages[k]) && fresh(messages[k])
+//@   loop 0: invariant forall k :: 0 <= k && k < len(messages) ==> messages[k].chained == 0
+//@   loop 0: invariant forall k :: 0 <= k && k < len(messages) ==> exists j :: 0 <= j && j < len(batch.Records) && messages[k].Offset == batch.FirstOffset + batch.Records[j].OffsetDelta && messages[k].Key == batch.Records[j].Key && messages[k].Value == batch.Records[j].Value && messages[k].Headers == batch.Records[j].Headers && messages[k].Topic == child.topic && messages[k].Partition == child.partition
+//@   modifies child.offset
